@@ -11,9 +11,11 @@ import (
 	"fmt"
 	"os"
 	"os/exec"
+	"runtime"
 	"strconv"
 	"strings"
 	"sync"
+	"syscall"
 	"time"
 
 	"verifharness/internal/report"
@@ -116,6 +118,11 @@ func Run(run *report.Run, childTest, part string, n int, timeout time.Duration, 
 		go func(i int) {
 			defer wg.Done()
 			cmd := exec.Command(os.Args[0], "-test.run", "^"+childTest+"$", "-test.count", "1", "-test.timeout", fmt.Sprintf("%ds", int(timeout.Seconds())))
+			// a child must not outlive its parent (a parent killed by the driver's watchdog would leave spinning
+			// orphans). The death signal is tied to the OS thread that forks: this goroutine keeps its thread until
+			// the child is done.
+			runtime.LockOSThread()
+			cmd.SysProcAttr = &syscall.SysProcAttr{Pdeathsig: syscall.SIGKILL}
 			cmd.Env = append(os.Environ(), fmt.Sprintf("VERIF_CHILD=%d/%d/%s", i, n, part))
 			cmd.Env = append(cmd.Env, extraEnv...)
 			var outb bytes.Buffer
